@@ -2,7 +2,7 @@
 from . import mirlib as M
 
 
-def backward_slice(f, start_local, stop=None):
+def backward_slice(f, start_local, stop=None, stop_locals=None):
     """Flow-insensitive backward data slice inside body f.
     Returns (calls, consts, locals): the call terminators whose result (or whose `&mut` argument) may flow into start_local,
     the constants met on the way, and every local on the slice.
@@ -10,7 +10,8 @@ def backward_slice(f, start_local, stop=None):
       x = call(args)            -> the call, and its args
       (*p).. = rvalue           -> the local p was derived from depends on the rvalue (writes through pointers, vec![..] storage)
       call(.., &mut x, ..)      -> the call may define x: the call, and its other args
-    stop(term) -> True marks a source: the call is recorded but its arguments are not followed"""
+    stop(term) -> True marks a source: the call is recorded but its arguments are not followed
+    stop_locals: locals that are sources themselves (they are part of the result, what defines them is not followed)"""
     seen, calls, consts = set(), [], []
     work = [start_local]
     ptr_writes, derived, mut_borrows = {}, {}, {}
@@ -72,6 +73,8 @@ def backward_slice(f, start_local, stop=None):
         if l in seen:
             continue
         seen.add(l)
+        if stop_locals is not None and l in stop_locals:
+            continue
         for b in f["blocks"]:
             for s in b["s"]:
                 if "rv" in s and M.place_local(s["p"]) == l:
